@@ -98,23 +98,33 @@ def checkRecs (t : Tree) (X : Rows) (recs : List (Option Nat × Nat × List Nat)
       | some p => r.2.1 != 0 && parentOf t r.2.1 == some p))
   && ((recs.map fun r => r.2.1).eraseDups.length == recs.length)
 
+/-- the successor table `"nxt": [[thr, succ], ..]` (both exact rationals): for every threshold of the tree the number
+    the converter puts at the left end of the right child's interval — `np.nextafter(thr, inf)` in the default mode,
+    `thr + eps` (evaluated in float64 by the harness, as the code does) in the explicit-`eps` mode -/
+def getNxt (j : Json) : Except String (Rat → Rat) := do
+  let ps ← (← arr (← j.getObjVal? "nxt")).mapM fun p => do
+    match (← arr p) with
+    | [a, b] => do pure ((← ratOf a), (← ratOf b))
+    | _ => throw "nxt entry must be [thr, succ]"
+  pure (nxtOfList ps)
+
 /-- `{"op":"C20.run","left":..,"right":..,"feature":..,"threshold":[[n,d]..],"value":[[n,d]..],
-      "X":[[[n,d]..]..],"m":..,"eps":[n,d],"consts":[[n,d]..],"recs":null|[..]}` -/
+      "X":[[[n,d]..]..],"m":..,"nxt":[[[n,d],[n,d]]..],"consts":[[n,d]..],"recs":null|[..]}` -/
 def run : Handler := fun j => do
   let t ← getTree j
   let X ← getRows j
   let m ← getNat j "m"
-  let eps ← ratOf (← j.getObjVal? "eps")
+  let nxt ← getNxt j
   let consts ← getRatList j "consts"
   let k1 ← (match j.getObjVal? "k1" with | .ok v => ratOf v | .error _ => pure (1 : Rat))
   let k2 ← (match j.getObjVal? "k2" with | .ok v => ratOf v | .error _ => pure (1 : Rat))
   let implRecs ← getImplRecs j
-  let wf := wellFormed t X m eps
+  let wf := wellFormed t X m nxt
   let treePred := X.map fun x => treePredict t x
   let paths := X.map fun x => pathFrom t x t.n 0
   let base := [("wf", Json.bool wf), ("fitted", Json.bool (fitted t X)), ("tree_pred", jRats treePred), ("paths", jNatss paths),
                ("recs_ok", match implRecs with | none => Json.null | some rs => Json.bool (checkRecs t X rs))]
-  match fromDecisionTree t X m eps with
+  match fromDecisionTree t X m nxt with
   | .error e => pure (Json.mkObj (base ++ [("conv", jErr e)]))
   | .ok L =>
     let conv := Json.mkObj [
